@@ -287,10 +287,11 @@ impl Calendar {
         let resolved_fields =
             ResolvedCalendarFields::try_from_partial(partial, overflow, ResolutionType::YearMonth)?;
         if self.is_iso() {
+            // The ISO reference day of a year-month is always 1, whatever `day` the fields carry.
             return PlainYearMonth::new_with_overflow(
                 resolved_fields.era_year.year,
                 resolved_fields.month_code.to_month_integer(),
-                Some(resolved_fields.day),
+                None,
                 self.clone(),
                 overflow,
             );
